@@ -3,6 +3,7 @@ package props
 import (
 	"fmt"
 	"sort"
+	"strconv"
 	"strings"
 	"unicode/utf8"
 
@@ -870,6 +871,21 @@ func check16SpecialSchemeEffect(c Case16, r *core.Rec) {
 	}
 	if !gu.IsSpecialScheme() {
 		r.Failf("%s with %s: IsSpecialScheme() is false", quote(name+rest), optNames(c.Opts))
+		return
+	}
+	// the derived accessors follow the configured table too: no port means the ADDED scheme's default
+	wantPort := du.DecodedPort()
+	if du.Port() == "" {
+		if n, err := strconv.Atoi(port); err == nil {
+			wantPort = n
+		}
+	}
+	if gu.DecodedPort() != wantPort {
+		r.Failf("%s with %s: DecodedPort() is %d, expected %d (Port() %q, the scheme's default port is %s)", quote(name+rest), optNames(c.Opts), gu.DecodedPort(), wantPort, gu.Port(), port)
+		return
+	}
+	if gu.IsIPv4() != du.IsIPv4() || gu.IsIPv6() != du.IsIPv6() {
+		r.Failf("%s with %s: IsIPv4/IsIPv6 differ from how http%s parses", quote(name+rest), optNames(c.Opts), mapped)
 	}
 }
 
